@@ -158,6 +158,30 @@ def get_fn(i, ctxful):
             # 'context' is a parameter name, but not the first one: no context is inserted
             def fn(first, context=None, *args, _name=f'q{i}'):
                 return _call(_name, (first, context) + args)
+        elif ctxful in ('method', 'callable', 'wrapped'):
+            # context-taking callables that are not plain functions: a bound method, an object
+            # with __call__, a functools.wraps-decorated function (signature follows __wrapped__)
+            import functools
+            nm = {'method': 'm', 'callable': 'c', 'wrapped': 'w'}[ctxful] + str(i)
+
+            class _Obj:
+                def meth(self, context, *args):
+                    return _call(nm, (context,) + args)
+
+                def __call__(self, context, *args):
+                    return _call(nm, (context,) + args)
+
+            if ctxful == 'method':
+                fn = _Obj().meth
+            elif ctxful == 'callable':
+                fn = _Obj()
+            else:
+                def plainfn(context, *args):
+                    return _call(nm, (context,) + args)
+
+                @functools.wraps(plainfn)
+                def fn(*a, **k):
+                    return plainfn(*a, **k)
         elif ctxful == 'partial':
             import functools
 
@@ -319,7 +343,8 @@ def fname_of(sp):
     if sp.get('aborter'):
         return 'a' + str(sp['fi'])
     fk = sp.get('fkind', 'ctx' if sp['ctxful'] else 'plain')
-    return {'plain': 'f', 'ctx': 'g', 'lookalike': 'k', 'partial': 'p', 'second': 'q'}[fk] + str(sp['fi'])
+    return {'plain': 'f', 'ctx': 'g', 'lookalike': 'k', 'partial': 'p', 'second': 'q', 'method': 'm',
+            'callable': 'c', 'wrapped': 'w'}[fk] + str(sp['fi'])
 
 
 def prefix_of(sp):
@@ -387,15 +412,15 @@ class World:
                     st = ('F', 'S') + tuple(st)
                 sp['static'] = st
         else:
-            fk = t.weighted([(12, 'plain'), (5, 'ctx'), (1, 'lookalike'), (1, 'partial'), (1, 'second')],
-                            'fkind')
+            fk = t.weighted([(12, 'plain'), (5, 'ctx'), (1, 'lookalike'), (1, 'partial'), (1, 'second'),
+                             (1, 'method'), (1, 'callable'), (1, 'wrapped')], 'fkind')
             st = self.gen_static()
             if fk == 'lookalike':
                 st = ('L',) + tuple(st)       # its first (positional) parameter needs a value
             if fk == 'second':
                 st = ('F', 'S') + tuple(st)   # values for `first` and for the parameter named context
             sp = {'name': ('t0', 't1', 't2', 't3', 't0-x', 'results-x')[t.draw(6, 'name')], 'fi': t.draw(5, 'fn'),
-                  'ctxful': fk == 'ctx', 'fkind': fk, 'static': st}
+                  'ctxful': fk in ('ctx', 'method', 'callable', 'wrapped'), 'fkind': fk, 'static': st}
         Task = _P['pw'].Task
         if like is None and self.allow_sub and not self.in_sub and t.draw(7, 'caller') == 6:
             # a task that calls a small sub-workflow dynamically (distributed branch only)
